@@ -43,6 +43,13 @@ def main():
         if problems or discharged != obligations:
             p = core.write_replay(pid, {"property": pid, "kind": "broken-proof", "problems": problems})
             violations.append((p, " no-failing-input-found"))
+        elif args.tier == "thorough" and os.environ.get("VERIF_COQCHK", "1") != "0":
+            # independent re-check of the compiled proofs and everything they depend on
+            c_ok, c_axioms, c_msg = core.coqchk_props(pid)
+            notes.append(c_msg)
+            if not c_ok:
+                p = core.write_replay(pid, {"property": pid, "kind": "broken-proof", "theorem": f"Props/{pid}.vo (coqchk)", "problems": [c_msg]})
+                violations.append((p, " no-failing-input-found"))
 
     # ---- 2. generated tables (regenerated part of the model)
     if ok and hasattr(mod, "tables"):
